@@ -10,6 +10,11 @@ theorems of `Props/C17.lean` are about those definitions at ℝ) AND corresponde
       out-of-bounds -> raises, random histories (initialize / optimiser steps with huge learning rates /
       raw assignments / constraint replacement) -> reads stay inside bounds; the scalar-parameter histories
       are also replayed through the Lean store model (`ParamStore`);
+  (3b) op-then-use histories: bound buffers replaced after construction (load_state_dict from objects built with other
+      bounds at constraint / kernel level, strict or not, into an already used module; buffer assignment; float()/double();
+      deepcopy / pickle) — the constraint must equal a freshly built one with its CURRENT bounds; aliasing — initialize /
+      non-enforced setters / unconstrained parameters never share storage with the caller's tensor or another module's
+      parameter (source changed afterwards by in-place op, optimiser step, setter); `initial_value=` (0.0 included), 0.0 setters;
   (4b) ONE Prior instance shared by 2–3 registrations (same module, two kernels of a sum/product, kernel + likelihood of
       an ExactGP): `named_priors()` enumerates every registration with its own closure, summed log-density = sum over
       registrations = scipy, setting closures / `sample_from_prior` per registration, exact MLL adds every term;
@@ -700,6 +705,272 @@ def compare_lean_histories(ctx, recs, replies):
     ctx.count("lean_history_mismatches", bad)
 
 
+
+# ------------------------------------------------------------------ (3b) bounds replaced after construction; aliasing
+
+def _oracle_current_bounds(ctx, con, name, how, rng, rp):
+    """The constraint must behave as a freshly built constraint with its CURRENT bound buffers."""
+    import torch
+    lt, ut = con.lower_bound.detach().double(), con.upper_bound.detach().double()
+    xs = special_values(rng) + random_values(rng, 40)
+    n = lt.numel() if lt.numel() > 1 else (ut.numel() if ut.numel() > 1 else 1)
+    if n > 1:
+        xs = xs[: (len(xs) // n) * n]
+        x = torch.tensor(xs, dtype=con.lower_bound.dtype).reshape(-1, n)
+    else:
+        x = torch.tensor(xs, dtype=con.lower_bound.dtype)
+    ctx.case(f"R:{name}:{how}", sample=dict(rp, lower=lt.flatten()[:3].tolist(), upper=ut.flatten()[:3].tolist()))
+    y = con.transform(x)
+    key = f"rebound:{name}:{how}"
+    if not bool(torch.all(y >= con.lower_bound) and torch.all(y <= con.upper_bound) and not torch.isnan(y).any()):
+        bad = ((y < con.lower_bound) | (y > con.upper_bound) | torch.isnan(y)).nonzero()[0].tolist()
+        ctx.fail(key, f"after {how}: {name} with bounds [{lt.flatten()[:3].tolist()}, {ut.flatten()[:3].tolist()}] transforms "
+                 f"{x[tuple(bad)].item()!r} to {y[tuple(bad)].item()!r}, outside its current bounds", rp)
+        return
+    fresh = make_constraint(name, con.lower_bound.detach().clone().double(), con.upper_bound.detach().clone().double())
+    fresh = fresh.to(con.lower_bound.dtype)
+    yf = fresh.transform(x)
+    if not torch.equal(y, yf):
+        i = (y != yf).nonzero()[0].tolist()
+        ctx.fail(key, f"after {how}: {name}.transform({x[tuple(i)].item()!r}) = {y[tuple(i)].item()!r} but a constraint built with the "
+                 f"same (current) bounds gives {yf[tuple(i)].item()!r}", rp)
+        return
+    interior = (y > con.lower_bound) & (y < con.upper_bound) & (x.abs() <= 10)
+    back, backf = con.inverse_transform(y), fresh.inverse_transform(y)
+    if not torch.equal(back[interior], backf[interior]):
+        ctx.fail(key, f"after {how}: {name}.inverse_transform differs from a constraint built with the same (current) bounds", rp)
+        return
+    if con.lower_bound.dtype == torch.float64 and n == 1:
+        l, u = lt.item(), ut.item()
+        for xi, bi in zip(x.flatten().tolist(), back.flatten().tolist()):
+            tol = 1e-9 * max(1.0, abs(xi))
+            if roundtrip_bound(name, l, u, xi) <= tol and not abs(bi - xi) <= tol:
+                ctx.fail(key, f"after {how}: {name}({l}, {u}): inverse_transform(transform({xi!r})) = {bi!r}", rp)
+                return
+
+
+def sweep_bound_changes(ctx, rng):
+    """Constraints whose bound buffers change AFTER construction (load_state_dict from an object built with other bounds,
+    at constraint / kernel / model level, strict and not; assigning new buffers; dtype moves; deepcopy / pickle), then used."""
+    import copy
+    import io
+    import pickle
+    import torch
+    import gpytorch
+    K = gpytorch.kernels
+    reps = 2 if ctx.quick else 10
+    for name in ("Interval", "GreaterThan", "LessThan"):
+        for rep in range(reps):
+            tensor_b = rep % 2 == 1
+            def bounds():
+                if not tensor_b:
+                    return random_bounds(rng, name)
+                bl = [random_bounds(rng, name) for _ in range(3)]
+                return (torch.tensor([b[0] for b in bl], dtype=torch.float64), torch.tensor([b[1] for b in bl], dtype=torch.float64))
+            l1, u1 = bounds()
+            l2, u2 = bounds()
+            rp = {"kind": "rebound", "class": name, "tensor_bounds": tensor_b}
+            # 1. constraint-level load_state_dict
+            a, b = make_constraint(name, l1, u1), make_constraint(name, l2, u2)
+            b.load_state_dict(a.state_dict())
+            _oracle_current_bounds(ctx, b, name, "load_state_dict", rng, rp)
+            # 2. assigning new bound buffers
+            c = make_constraint(name, l1, u1)
+            if name != "LessThan":
+                c.lower_bound = torch.as_tensor(l2, dtype=torch.float64)
+            if name != "GreaterThan":
+                c.upper_bound = torch.as_tensor(u2, dtype=torch.float64)
+            if bool(torch.all(c.lower_bound < c.upper_bound)):
+                _oracle_current_bounds(ctx, c, name, "buffer-assignment", rng, rp)
+            # 3. dtype moves and copies
+            d = make_constraint(name, l1, u1)
+            _oracle_current_bounds(ctx, d.float(), name, "float()", rng, rp)
+            _oracle_current_bounds(ctx, d.double(), name, "float().double()", rng, rp)
+            _oracle_current_bounds(ctx, copy.deepcopy(b), name, "load_state_dict+deepcopy", rng, rp)
+            _oracle_current_bounds(ctx, pickle.loads(pickle.dumps(b)), name, "load_state_dict+pickle", rng, rp)
+            # 4. kernel / model level: state dict saved from a model built with other bounds
+            if not tensor_b:
+                k1 = K.ScaleKernel(K.RBFKernel(lengthscale_constraint=make_constraint(name, l1, u1)),
+                                   outputscale_constraint=make_constraint(name, l2, u2)).double()
+                k2 = K.ScaleKernel(K.RBFKernel(lengthscale_constraint=make_constraint(name, l2, u2)),
+                                   outputscale_constraint=make_constraint(name, l1, u1)).double()
+                v1 = interior_values(rng, name, float(l1), float(u1), (1, 1))
+                k1.base_kernel.lengthscale = v1
+                k1.outputscale = interior_values(rng, name, float(l2), float(u2), ())
+                buf = io.BytesIO()
+                torch.save(k1.state_dict(), buf)
+                buf.seek(0)
+                strict = rng.random() < 0.5
+                k2.base_kernel.lengthscale = interior_values(rng, name, float(l2), float(u2), (1, 1))     # k2 has been used before
+                k2.load_state_dict(torch.load(buf), strict=strict)
+                how = f"kernel.load_state_dict(strict={strict})"
+                ctx.case(f"R:{name}:{how}:read")
+                for nm, ka, kb in (("lengthscale", k1.base_kernel, k2.base_kernel), ("outputscale", k1, k2)):
+                    ra, rb = getattr(ka, nm).detach(), getattr(kb, nm).detach()
+                    cb = kb.constraint_for_parameter_name("raw_" + nm)
+                    if not (torch.equal(ra, rb) and in_bounds(rb, cb)):
+                        ctx.fail(f"rebound:{name}:{how}", f"after loading the state dict of a kernel built with {name} bounds "
+                                 f"({l1}, {u1}) / ({l2}, {u2}) into one built with the bounds swapped, {nm} reads {rb.flatten().tolist()} "
+                                 f"(source {ra.flatten().tolist()}, constraint now {cb})", dict(rp, param=nm))
+                _oracle_current_bounds(ctx, k2.base_kernel.raw_lengthscale_constraint, name, how, rng, rp)
+                # and the loaded module still sets / reads / rejects correctly
+                cb = k2.base_kernel.raw_lengthscale_constraint
+                lo, hi = bounds_of(cb)
+                v = interior_values(rng, name, lo, hi, (1, 1))
+                try:
+                    k2.base_kernel.lengthscale = v
+                    got = k2.base_kernel.lengthscale.detach()
+                    if not torch.allclose(got, v, rtol=1e-9):
+                        ctx.fail(f"rebound:{name}:{how}", f"after {how}: lengthscale = {v.item()!r} reads back {got.item()!r} ({cb})", rp)
+                except Exception as e:
+                    ctx.fail(f"rebound:{name}:{how}", f"after {how}: lengthscale = {v.item()!r} (interior of {cb}) raised "
+                             f"{type(e).__name__}", rp)
+    ctx.count("bound_change_rounds", 3 * reps)
+
+
+def sweep_aliasing(ctx, rng):
+    """A module's parameter must never share storage with a tensor the caller handed in (initialize, setters whose
+    constraint is not enforced, unconstrained parameters) nor with another module's parameter: later in-place changes of
+    the source (setter / optimiser step on the other module, the caller recycling its buffer) leave the value alone."""
+    import torch
+    import gpytorch
+    from gpytorch.constraints import Interval, Positive
+    K, L, M = gpytorch.kernels, gpytorch.likelihoods, gpytorch.means
+
+    def cases():
+        yield "RBFKernel.raw_lengthscale", lambda: K.RBFKernel(ard_num_dims=2).double(), "raw_lengthscale", "lengthscale"
+        yield "ScaleKernel.raw_outputscale", lambda: K.ScaleKernel(K.RBFKernel()).double(), "raw_outputscale", "outputscale"
+        yield "GaussianLikelihood.noise_covar.raw_noise", lambda: L.GaussianLikelihood().double(), "noise_covar.raw_noise", "noise"
+        yield "PeriodicKernel.raw_period_length", lambda: K.PeriodicKernel().double(), "raw_period_length", "period_length"
+        yield "ConstantMean.raw_constant(unconstrained)", lambda: M.ConstantMean().double(), "raw_constant", "constant"
+        yield ("RBFKernel.raw_lengthscale(transform=None)",
+               lambda: K.RBFKernel(lengthscale_constraint=Interval(0.01, 100.0, transform=None, inv_transform=None)).double(),
+               "raw_lengthscale", "lengthscale")
+        yield ("LinearMean.weights(unconstrained)", lambda: M.LinearMean(2).double(), "weights", None)
+
+    def get(mod, dotted):
+        for part in dotted.split("."):
+            mod = getattr(mod, part)
+        return mod
+
+    for rep in range(1 if ctx.quick else 4):
+        for cname, mk, raw, pub in cases():
+            rp = {"kind": "alias", "case": cname}
+            # A. copy hyper-parameters between two modules, then change the source
+            for how in ("parameter", "detach", "data"):
+                with warnings.catch_warnings():
+                    warnings.simplefilter("ignore")
+                    m1, m2 = mk(), mk()
+                p1 = get(m1, raw)
+                with torch.no_grad():
+                    p1.copy_(torch.tensor([rng.uniform(0.2, 1.5) for _ in range(p1.numel())]).reshape(p1.shape))
+                src = {"parameter": p1, "detach": p1.detach(), "data": p1.data}[how]
+                ctx.case(f"A:{cname}:between-modules:{how}")
+                m2.initialize(**{raw: src})
+                p2 = get(m2, raw)
+                before = p2.detach().clone()
+                read_before = (getattr(m2, pub).detach().clone() if pub else before)
+                ops = rng.choice(["inplace", "sgd", "setter"])
+                if ops == "inplace" or (ops == "setter" and pub is None):
+                    with torch.no_grad():
+                        p1.add_(3.0)
+                elif ops == "sgd":
+                    opt = torch.optim.SGD([p1], lr=10.0)
+                    (p1 ** 2).sum().backward()
+                    opt.step()
+                else:
+                    try:
+                        setattr(m1, pub, getattr(m1, pub).detach() * 1.7 + 0.1)
+                    except Exception:
+                        with torch.no_grad():
+                            p1.add_(3.0)
+                after = get(m2, raw).detach()
+                read_after = (getattr(m2, pub).detach() if pub else after)
+                if p2.data_ptr() == p1.data_ptr() or not torch.equal(before, after) or not torch.equal(read_before, read_after):
+                    ctx.fail(f"alias:{cname}", f"m2.initialize({raw}=m1.{raw} [{how}]) then a {ops} change of m1 moved m2: "
+                             f"{read_before.flatten()[:2].tolist()} -> {read_after.flatten()[:2].tolist()} "
+                             f"(shared storage: {p2.data_ptr() == p1.data_ptr()})", dict(rp, via=how, then=ops))
+            # B. the caller recycles the tensor it passed to initialize / to the setter
+            for entry in ("initialize", "setter"):
+                if entry == "setter" and pub is None:
+                    continue
+                with warnings.catch_warnings():
+                    warnings.simplefilter("ignore")
+                    m = mk()
+                p = get(m, raw)
+                t = torch.tensor([rng.uniform(0.3, 1.2) for _ in range(p.numel())], dtype=p.dtype).reshape(p.shape)
+                ctx.case(f"A:{cname}:caller-buffer:{entry}")
+                try:
+                    if entry == "initialize":
+                        m.initialize(**{raw: t})
+                    else:
+                        setattr(m, pub, t)
+                except Exception as e:
+                    ctx.fail(f"alias:{cname}", f"{entry} with a tensor of the parameter's own shape raised {type(e).__name__}: "
+                             f"{str(e)[:80]}", dict(rp, entry=entry))
+                    continue
+                read0 = (getattr(m, pub).detach().clone() if pub else get(m, raw).detach().clone())
+                with torch.no_grad():
+                    t.fill_(-1e6)
+                read1 = (getattr(m, pub).detach() if pub else get(m, raw).detach())
+                if get(m, raw).data_ptr() == t.data_ptr() or not torch.equal(read0, read1):
+                    ctx.fail(f"alias:{cname}", f"after {entry}(<tensor t>) the caller overwrote t: the parameter now reads "
+                             f"{read1.flatten()[:2].tolist()} (was {read0.flatten()[:2].tolist()}; shared storage: "
+                             f"{get(m, raw).data_ptr() == t.data_ptr()})", dict(rp, entry=entry))
+                con = None
+                try:
+                    owner, rawn, _ = owner_and_public(m, raw)
+                    con = owner.constraint_for_parameter_name(rawn)
+                except Exception:
+                    pass
+                if con is not None and con.enforced and not in_bounds(read1, con):
+                    ctx.fail(f"bounds:{cname}", f"after the caller recycled its buffer the parameter reads {read1.flatten()[:2].tolist()} "
+                             f"outside {con}", dict(rp, entry=entry))
+    ctx.count("aliasing_rounds", 1 if ctx.quick else 4)
+
+
+def sweep_initial_values(ctx, rng):
+    """`initial_value=` of a constraint (0.0 included where it is interior) is what the parameter reads after
+    register_constraint; setters accept 0.0 / negative interior values."""
+    import torch
+    import gpytorch
+    from gpytorch.constraints import GreaterThan, Interval, LessThan, Positive
+    cases = [("Interval(-1,1,initial_value=0.0)", lambda: Interval(-1.0, 1.0, initial_value=0.0), 0.0),
+             ("Interval(0,2,initial_value=0.5)", lambda: Interval(0.0, 2.0, initial_value=0.5), 0.5),
+             ("GreaterThan(-1,initial_value=0.0)", lambda: GreaterThan(-1.0, initial_value=0.0), 0.0),
+             ("LessThan(1,initial_value=0.0)", lambda: LessThan(1.0, initial_value=0.0), 0.0),
+             ("LessThan(0,initial_value=-2.0)", lambda: LessThan(0.0, initial_value=-2.0), -2.0),
+             ("Positive(initial_value=3.0)", lambda: Positive(initial_value=3.0), 3.0)]
+    for cname, mk, want in cases:
+        for host in ("ConstantKernel", "ScaleKernel"):
+            with warnings.catch_warnings():
+                warnings.simplefilter("ignore")
+                k = (gpytorch.kernels.ConstantKernel(constant_constraint=mk()) if host == "ConstantKernel"
+                     else gpytorch.kernels.ScaleKernel(gpytorch.kernels.RBFKernel(), outputscale_constraint=mk())).double()
+            val = (k.constant if host == "ConstantKernel" else k.outputscale).detach()
+            ctx.case(f"I:{host}:{cname}")
+            if not torch.allclose(val, torch.full_like(val, want), rtol=1e-9, atol=1e-12):
+                ctx.fail(f"initial-value:{host}", f"{host} with {cname} reads {val.flatten().tolist()} after construction (initial_value {want})",
+                         {"kind": "initial-value", "host": host, "constraint": cname})
+            # a second module re-registering the constraint keeps working, and 0.0 can be assigned where it is interior
+            con = k.constraint_for_parameter_name("raw_constant" if host == "ConstantKernel" else "raw_outputscale")
+            lo, hi = bounds_of(con)
+            if lo < 0.0 < hi:
+                try:
+                    if host == "ConstantKernel":
+                        k.constant = torch.zeros_like(val)
+                        got = k.constant.detach()
+                    else:
+                        k.outputscale = 0.0
+                        got = k.outputscale.detach()
+                    if not torch.allclose(got, torch.zeros_like(got), atol=1e-12):
+                        ctx.fail(f"setter:{host}.zero", f"{host} under {con}: assigning 0.0 reads back {got.flatten().tolist()}",
+                                 {"kind": "initial-value", "host": host, "constraint": cname})
+                except Exception as e:
+                    ctx.fail(f"setter:{host}.zero", f"{host} under {con}: assigning the interior value 0.0 raised {type(e).__name__}: "
+                             f"{str(e)[:80]}", {"kind": "initial-value", "host": host, "constraint": cname})
+
+
 # ------------------------------------------------------------------ (4) priors
 
 def documented_smoothed_box_denominator():
@@ -1199,6 +1470,9 @@ def correspondence(ctx, want_driver=True):
     try:
         tl, tr = sweep_transforms(ctx)
         ml, mr = sweep_modules(ctx)
+        sweep_bound_changes(ctx, ctx.rng("bound-changes"))
+        sweep_aliasing(ctx, ctx.rng("aliasing"))
+        sweep_initial_values(ctx, ctx.rng("initial-values"))
         pl, pr = sweep_priors(ctx)
         observation_initialize_float(ctx)
         if want_driver:
@@ -1244,6 +1518,15 @@ def replay(ctx, payload):
         if bnd <= tol:
             ok = ok and abs(con.inverse_transform(y)[0].item() - case["x"]) <= tol
         return ok
+    if k in ("rebound", "alias", "initial-value"):
+        sub = Ctx2()
+        torch.set_default_dtype(torch.float64)
+        try:
+            {"rebound": sweep_bound_changes, "alias": sweep_aliasing, "initial-value": sweep_initial_values}[k](
+                sub, sub.rng({"rebound": "bound-changes", "alias": "aliasing", "initial-value": "initial-values"}[k]))
+        finally:
+            torch.set_default_dtype(torch.float32)
+        return not any(f["key"] == payload["key"] for f in sub.failures)
     if k == "shared-prior":
         sub = Ctx2()
         torch.set_default_dtype(torch.float64)
